@@ -226,6 +226,52 @@ func exec(kind byte, body []byte) *core.Verdict {
 			return fail("process-values-differ", "specification %s, Process %s\n%s", pairs(want), got, text)
 		}
 	}
+	// the same members with the values explicitly re-paired (rotated by one): another type, which a union keeps
+	// next to the first one (ExplicitRule: every member gets exactly the value written)
+	if ok && len(c.Members) >= 2 {
+		kw, vk, tn := "enum", "value", "enumeration"
+		if !c.Uniq {
+			kw, vk, tn = "bit", "position", "bits"
+		}
+		rot := map[string]int64{}
+		var a, b strings.Builder
+		for i, m := range c.Members {
+			nv := gamma(c.Members[(i+1)%len(c.Members)].Val, c.Uniq)
+			rot[m.Name] = nv
+			fmt.Fprintf(&a, " %s %s { %s %d; }", kw, m.Name, vk, gamma(m.Val, c.Uniq))
+			fmt.Fprintf(&b, " %s %s { %s %d; }", kw, m.Name, vk, nv)
+		}
+		if pairs(rot) != pairs(want) {
+			utext := fmt.Sprintf("module m { namespace \"urn:m\"; prefix m;\n leaf l { type union {\n  type %s {%s }\n  type %s {%s }\n } }\n}\n", tn, a.String(), tn, b.String())
+			ms := yang.NewModules()
+			if err := ms.Parse(utext, "m.yang"); err != nil {
+				return fail("union-parse", "%v\n%s", err, utext)
+			}
+			if errs := ms.Process(); len(errs) > 0 {
+				return fail("union-rejected", "two enumerations that pair the same names and values differently: %v\n%s", errs, utext)
+			}
+			l := yang.ToEntry(ms.Modules["m"]).Dir["l"]
+			if l == nil || l.Type == nil || len(l.Type.Type) != 2 {
+				n := -1
+				if l != nil && l.Type != nil {
+					n = len(l.Type.Type)
+				}
+				return fail("union-member-lost", "a union of two types that pair the same names and values differently has %d member types\n%s", n, utext)
+			}
+			for k, w := range []map[string]int64{want, rot} {
+				et := l.Type.Type[k].Enum
+				if !c.Uniq {
+					et = l.Type.Type[k].Bit
+				}
+				if et == nil || pairs(et.NameMap()) != pairs(w) {
+					return fail("union-member-values", "member type %d: expected %s\n%s", k+1, pairs(w), utext)
+				}
+			}
+			if l.Type.Type[0].Equal(l.Type.Type[1]) {
+				return fail("equal-ignores-pairing", "YangType.Equal holds for types that pair names and values differently\n%s", utext)
+			}
+		}
+	}
 	if len(c.Ops) == 3 && nImplicit == 2 && c.Ops[0].Val == -2 {
 		v.Sample = map[string]any{"kind": route, "yang": text, "expected_accept": allOK, "expected_members": want}
 	}
